@@ -231,6 +231,33 @@ Qed.
 Lemma unify_empty_left b u : unify SEmptyArr b = Some u -> u = b.
 Proof. destruct b; simpl; intro H; inversion H; reflexivity. Qed.
 
+Lemma equals_none_r l : equals l TNone = is_none l.
+Proof. destruct l; reflexivity. Qed.
+
+Lemma equals_erase : forall l r, spec_ty l = true -> spec_ty r = true ->
+  equals l r = sty_eqb (erase l) (erase r).
+Proof.
+  induction l; intros r Hl Hr; destruct r; simpl in *; try discriminate; try reflexivity;
+    try (apply IHl; assumption); try (apply spec_not_none; assumption);
+    try (rewrite equals_none_r; apply spec_not_none; assumption).
+Qed.
+
+Lemma erase_merge_fixed : forall t t2, spec_ty t = true -> spec_ty t2 = true -> equals t t2 = true ->
+  erase (merge_fixed t t2) = erase t.
+Proof.
+  induction t; intros t2 Hs Hs2 He; simpl;
+    try (destruct (negb (has_fixed t2) || _); [reflexivity|]; simpl;
+         rewrite equals_erase in He by assumption; apply sty_eqb_eq in He; simpl in He; congruence).
+  - destruct (negb (has_fixed t2) || false) eqn:C; [reflexivity|].
+    destruct (negb (fx || has_fixed t)) eqn:D.
+    + rewrite equals_erase in He by assumption. apply sty_eqb_eq in He. simpl in He. congruence.
+    + destruct t2; simpl in *; try discriminate; try reflexivity. f_equal. apply IHt; assumption.
+  - destruct (negb (has_fixed t2) || false) eqn:C; [reflexivity|].
+    destruct (negb (fx || has_fixed t)) eqn:D.
+    + rewrite equals_erase in He by assumption. apply sty_eqb_eq in He. simpl in He. congruence.
+    + destruct t2; simpl in *; try discriminate; try reflexivity. f_equal. apply IHt; assumption.
+Qed.
+
 (* result type.  [bnt0] is binary_node_type without the final fixedType (which
    does not change the erased type). *)
 Definition bnt0 (op : binop) (lt rt : ty) : ty :=
@@ -240,10 +267,21 @@ Definition bnt0 (op : binop) (lt rt : ty) : ty :=
 Lemma erase_fixed_type t : erase (fixed_type t) = erase t.
 Proof. destruct t; reflexivity. Qed.
 
-Lemma bnt_erase op lt rt : erase (binary_node_type op lt rt) = erase (bnt0 op lt rt).
+Lemma spec_fixed_type t : spec_ty (fixed_type t) = spec_ty t.
+Proof. destruct t; reflexivity. Qed.
+
+Lemma bnt_erase op lt rt : spec_ty lt = true -> spec_ty rt = true ->
+  erase (binary_node_type op lt rt) = erase (bnt0 op lt rt).
 Proof.
-  unfold binary_node_type, bnt0.
-  destruct (is_array_name _ && fixed rt); [apply erase_fixed_type | reflexivity].
+  intros Hl Hr. unfold binary_node_type. fold (bnt0 op lt rt).
+  assert (Hb : spec_ty (bnt0 op lt rt) = true).
+  { unfold bnt0. destruct (is_comparison op); [destruct (_ && _); auto|]. destruct (_ && _); auto. }
+  set (t1 := if is_plus op && is_array_name (bnt0 op lt rt) && equals (bnt0 op lt rt) rt
+             then merge_fixed (bnt0 op lt rt) rt else bnt0 op lt rt).
+  assert (E1 : erase t1 = erase (bnt0 op lt rt)).
+  { unfold t1. destruct (is_plus op && is_array_name (bnt0 op lt rt) && equals (bnt0 op lt rt) rt) eqn:C; [|reflexivity].
+    apply andb_true_iff in C as [_ C]. apply erase_merge_fixed; assumption. }
+  destruct (is_array_name t1 && fixed rt); [rewrite erase_fixed_type|]; exact E1.
 Qed.
 
 (* before commit f8788c6: the T of the node was the table's result type only
@@ -283,7 +321,7 @@ Theorem binop_result_type op lt rt :
   (has_empty lt = false \/ lt = TEmptyArr) ->
   OpType op (erase lt) (erase rt) (erase (binary_node_type op lt rt)).
 Proof.
-  intros Hl Hr Hv Hg. rewrite bnt_erase. destruct Hg as [He | ->].
+  intros Hl Hr Hv Hg. rewrite bnt_erase by assumption. destruct Hg as [He | ->].
   - replace (bnt0 op lt rt) with (binary_node_type_old op lt rt).
     + apply binop_result_type_old; auto.
     + unfold binary_node_type_old, bnt0.
@@ -297,15 +335,7 @@ Proof.
       try discriminate.
 Qed.
 
-(* the Fixed flag of the node: a concatenation / repetition is as rigid as its
-   right operand or its left operand *)
-Lemma binop_result_fixed op lt rt :
-  is_array_name (bnt0 op lt rt) = true -> fixed rt = true ->
-  fixed (binary_node_type op lt rt) = true \/ is_empty (bnt0 op lt rt) = true \/ is_generic (bnt0 op lt rt) = true.
-Proof.
-  intros Ha Hf. unfold binary_node_type. fold (bnt0 op lt rt). rewrite Ha, Hf. simpl.
-  destruct (bnt0 op lt rt); simpl in *; auto; discriminate.
-Qed.
+
 
 (* regression lemma about the code BEFORE f8788c6: [] * n was typed by its right operand *)
 Lemma binop_result_type_before_fix_refuted :
@@ -409,16 +439,7 @@ Proof.
 Qed.
 
 (* ---------- combineTypes on constants: the strictest common type ---------- *)
-Lemma equals_none_r l : equals l TNone = is_none l.
-Proof. destruct l; reflexivity. Qed.
 
-Lemma equals_erase : forall l r, spec_ty l = true -> spec_ty r = true ->
-  equals l r = sty_eqb (erase l) (erase r).
-Proof.
-  induction l; intros r Hl Hr; destruct r; simpl in *; try discriminate; try reflexivity;
-    try (apply IHl; assumption); try (apply spec_not_none; assumption);
-    try (rewrite equals_none_r; apply spec_not_none; assumption).
-Qed.
 
 Lemma cjoin_comm : forall a b, cjoin a b = cjoin b a.
 Proof.
@@ -848,6 +869,15 @@ Proof. destruct t; simpl; intros; try discriminate; auto. Qed.
 Lemma embed_no_generic s : has_generic (embed s) = false.
 Proof. induction s; simpl; auto. Qed.
 
+Lemma range_var_rigid t vt : range_var_type t = Some (Some vt) -> rigid vt = true /\ has_empty vt = false.
+Proof.
+  unfold range_var_type. destruct (name t) eqn:N; try discriminate;
+    try (intro H; inversion H; subst; auto; fail).
+  destruct (infer t) eqn:I; [|discriminate]. apply infer_no_empty in I as [I1 I2].
+  destruct t0; simpl; try discriminate; intro H; inversion H; subst; simpl in I1, I2;
+    apply rigid_fixed_type; assumption.
+Qed.
+
 Theorem tc_leaf_rigid e t err :
   annot_closed e = true -> tc e = ONode (NLeaf t) err -> rigid t = true /\ has_empty t = false.
 Proof.
@@ -884,7 +914,12 @@ Proof.
     apply infer_no_empty in I as [I1 I2]. apply rigid_fixed_type; assumption.
   - destruct (tc e); simpl in H; try discriminate. inversion H; subst.
     apply rigid_fixed_type; [apply closed_embed_iff; exact Hc | apply embed_no_generic].
+  - destruct (tc e); simpl in H; try discriminate.
+    destruct (range_var_type (node_type n)) as [[vt|]|] eqn:R; try discriminate; inversion H; subst; auto.
+    eapply range_var_rigid; eauto.
 Qed.
+
+
 
 (* ---------- assignment targets: parseAssignmentTarget against spec.md "Assignments" ---------- *)
 Definition erase_step (k : kstep) : sstep :=
@@ -964,4 +999,110 @@ Proof.
     destruct (target_step_s (erase t) (erase_step k)).
     + destruct St as (T1 & E1 & _ & S1 & N1). rewrite E1 in *. apply IH; assumption.
     + rewrite St in H. discriminate.
+Qed.
+
+(* ---------- loop variables (parseForStatement) ---------- *)
+(* for every range operand of a specification type: the loop variable exists
+   exactly for the iterable types, its type is the element type (keys and
+   characters: string; counting: num; untyped empties defaulted) … *)
+Theorem range_var_spec t :
+  spec_ty t = true ->
+  match range_elem_s (erase t) with
+  | Some s => exists vt, range_var_type t = Some (Some vt) /\ erase vt = s /\ spec_ty vt = true
+  | None => range_var_type t = None
+  end.
+Proof.
+  intro Hs. destruct t; simpl in Hs; try discriminate; simpl;
+    try (eexists; repeat split; reflexivity); try reflexivity.
+  - destruct (infer_spec t Hs) as (t' & E & D & S & Em & _).
+    unfold range_var_type; simpl. rewrite E. simpl.
+    eexists; split; [reflexivity|]. rewrite erase_fixed_type. split.
+    + symmetry. apply defaults_iff in D. exact D.
+    + destruct (fixed_type_keeps t') as [A _]; rewrite A; exact S.
+Qed.
+
+(* … and it is a VARIABLE of that type: when the operand is a variable, a
+   constant or an empty literal, the loop variable's type is a pure variable
+   type (Fixed at the top if composite, nothing convertible below), so by
+   accepts_iff_assignable it is assignable to the identical type or any only *)
+Theorem range_var_is_variable t vt :
+  pure_ty t = true -> range_var_type t = Some (Some vt) ->
+  (rigid vt = true /\ has_empty vt = false) /\
+  (forall T, spec_ty T = true -> is_array_name vt || is_map_name vt = true ->
+             (accepts T vt = true <-> Assignable KVar (erase T) (erase vt))).
+Proof.
+  intros Hp Hr. split; [eapply range_var_rigid; eauto|].
+  intros T HT Hcomp.
+  assert (Hv : var_ty vt = true).
+  { assert (Hs := pure_spec t Hp).
+    unfold range_var_type in Hr. destruct (name t) eqn:N; try discriminate;
+      try (inversion Hr; subst; discriminate).
+    destruct (infer_spec t Hs) as (t' & E & _ & S & Em & _ & HF). rewrite E in Hr.
+    assert (HFs : forall s, sub t' = Some s -> has_fixed s = false).
+    { unfold pure_ty in Hp. apply orb_true_iff in Hp as [Hc | Hv'].
+      - apply const_nofix in Hc. rewrite <- HF in Hc. intros s Hsub.
+        destruct t'; simpl in *; try discriminate; inversion Hsub; subst;
+          apply orb_false_iff in Hc as [_ Hc]; exact Hc.
+      - destruct (var_form t Hv') as (ts & [-> | ->] & Hts); simpl in E;
+          destruct (infer ts) eqn:I; try discriminate; inversion E; subst; simpl;
+          intros s Hsub; inversion Hsub; subst;
+          destruct (infer_spec ts) as (x & Ex & _ & _ & _ & _ & Hx);
+          try (apply var_ty_inv in Hv' as [Hv' _]; simpl in Hv'; exact Hv');
+          rewrite I in Ex; inversion Ex; subst; congruence. }
+    destruct t'; simpl in Hr; try discriminate; inversion Hr; subst; simpl in S, Em;
+      specialize (HFs _ eq_refl);
+      destruct t'; simpl in Hcomp; try discriminate; unfold var_ty; simpl in *;
+      rewrite S, Em; simpl; apply orb_false_iff in HFs as [_ HFs]; rewrite HFs; reflexivity. }
+  assert (K : kind_of vt = KVar).
+  { apply var_ty_inv in Hv as (_ & _ & _ & H). unfold kind_of. rewrite H. reflexivity. }
+  rewrite <- K. apply accepts_iff_assignable; [exact HT | unfold pure_ty; rewrite Hv; apply orb_true_r].
+Qed.
+
+(* regression, about parseBinaryExpr before commit 6b5553c: only the TOP-LEVEL
+   Fixed flag of the right operand was looked at, so  [[1]] + [nums]  (nums a
+   variable) kept the unfixed type [][]num of its left operand; accepts let it
+   through for [][]any although the right operand itself is not accepted — and
+   wrapAny then panicked on nums.   nums := [1] ; a:[][]any ; a = [[1]] + [nums] *)
+Lemma concat_inner_fixed_before_fix_refuted :
+  exists lt rt target, validate_binary OpPlus lt rt = true /\ has_empty lt = false /\ has_empty rt = false /\
+    accepts target (binary_node_type_pre_6b5553c OpPlus lt rt) = true /\ accepts target rt = false.
+Proof.
+  exists (TArr false (TArr false TNum)), (TArr false (TArr true TNum)), (TArr true (TArr false TAny)).
+  repeat split; reflexivity.
+Qed.
+
+(* on the current tree the same program is a type error, and the node type carries the variable's flag *)
+Lemma concat_inner_fixed_now :
+  binary_node_type OpPlus (TArr false (TArr false TNum)) (TArr false (TArr true TNum)) = TArr false (TArr true TNum) /\
+  check (CAssign (SArr (SArr SAny))) (EBin OpPlus (EArr [EArr [ELitNum]]) (EArr [EVar (SArr SNum)])) = Reject /\
+  check (CAssign (SArr SAny)) (EBin OpPlus (EArr [EArr [ELitNum]]) (EArr [EVar (SArr SNum)])) = Reject /\
+  check (CAssign (SArr (SArr SNum))) (EBin OpPlus (EArr [EArr [ELitNum]]) (EArr [EVar (SArr SNum)])) =
+    Accept (TArr true (TArr false TNum)) (TArr false (TArr true TNum)).
+Proof. vm_compute. repeat split; reflexivity. Qed.
+
+(* the node type of a binary expression over specification types is a specification type *)
+Lemma spec_merge_fixed : forall t t2, spec_ty t = true -> spec_ty t2 = true -> spec_ty (merge_fixed t t2) = true.
+Proof.
+  induction t; intros t2 Hs Hs2; simpl in Hs; try discriminate Hs; simpl;
+    try (destruct (negb (has_fixed t2) || _); [reflexivity|]; simpl; assumption).
+  - destruct (negb (has_fixed t2) || false) eqn:C; [assumption|].
+    destruct (negb (fx || has_fixed t)); [assumption|].
+    destruct t2; simpl in *; try discriminate C; try assumption; apply IHt; assumption.
+  - destruct (negb (has_fixed t2) || false) eqn:C; [assumption|].
+    destruct (negb (fx || has_fixed t)); [assumption|].
+    destruct t2; simpl in *; try discriminate C; try assumption; apply IHt; assumption.
+Qed.
+
+Lemma binary_node_type_spec_ty op lt rt :
+  spec_ty lt = true -> spec_ty rt = true -> spec_ty (binary_node_type op lt rt) = true.
+Proof.
+  intros Hl Hr. unfold binary_node_type.
+  set (t0 := if is_empty_arr (if is_comparison op then TBool else lt) && is_plus op then rt
+             else if is_comparison op then TBool else lt).
+  assert (H0 : spec_ty t0 = true).
+  { unfold t0. destruct (is_comparison op); destruct (_ && _); auto. }
+  set (t1 := if is_plus op && is_array_name t0 && equals t0 rt then merge_fixed t0 rt else t0).
+  assert (H1 : spec_ty t1 = true).
+  { unfold t1. destruct (_ && _ && _); [apply spec_merge_fixed; assumption | exact H0]. }
+  destruct (is_array_name t1 && fixed rt); [rewrite spec_fixed_type|]; exact H1.
 Qed.
